@@ -27,6 +27,16 @@ fn family(ctx: &Ctx) -> Vec<Vec<u8>> {
         vec![Op::Typed(Kind::ErrorCode, vec![0, 0, 4, 1, b'n', b'o'])],
         // larger messages: the FINGERPRINT sits beyond offset 255 / 1023
         vec![Op::Typed(Kind::Software, vec![b'L'; 251]), Op::Typed(Kind::Username, b"user".to_vec())],
+        // values that read as a FINGERPRINT / integrity attribute header or as a whole STUN message
+        // (a relayed message inside DATA), word-aligned and not: whatever locates the trailing
+        // FINGERPRINT or the covered range by looking at the bytes shows here
+        vec![Op::Raw(0x0013, {
+            let mut inner = wire::encode_header(0, 1, 0x0A0B_0C0D_0E0F_1011_1213_1415, 0);
+            wire::append_raw(&mut inner, 0x0006, b"ab");
+            wire::append_fp(&mut inner);
+            inner
+        }), Op::Raw(0x0012, vec![0, 1, 0x21, 0x12, 0x21 ^ 10, 0x12, 0xA4, 0x43])],
+        vec![Op::Raw(0xFF03, vec![0x80, 0x28, 0x00, 0x04, 1, 2, 3, 4, 0x00, 0x08, 0x00, 0x14, 0x00, 0x1C, 0x00, 0x20]), Op::Raw(0xFF04, vec![0xEE, 0x80, 0x28, 0x00, 0x04, 9, 9, 9, 9])],
     ];
     if ctx.tier == Tier::Thorough {
         bodies.push(vec![Op::Typed(Kind::Nonce, vec![b'n'; 700]), Op::Typed(Kind::Realm, vec![b'r'; 333]), Op::Raw(0xFF02, vec![0x5A; 41])]);
@@ -204,7 +214,7 @@ pub fn run(ctx: &Ctx) -> Report {
     Report {
         acc,
         exhaustive: true,
-        rule: format!("(each corrupted copy is parsed right after its uncorrupted original) 8 bodies (one of ~300 bytes; thorough: one more of ~1150 bytes) x 4 sealing combinations ending in FINGERPRINT x 4 classes, built by the real builder; on each: the builder's CRC value vs the reference relation; every single-byte substitution (255 per byte, includes all single-bit flips); every burst of width 2..=32 at every start bit with both end bits set (all interior patterns up to width {full_w}, 3 shapes above); ~20 plausible alternative CRC values (byte-swapped, complemented, without the XOR constant, rotated, over other ranges or length fields); large messages with the FINGERPRINT starting at 65516..=65544 and around 256 / 4096 / 32768 x 2 classes with a stated subset of corruptions (every bit of the header, of the last 12 bytes and of every 509th byte, every value of the length-field and CRC bytes); the builder value for typed text attributes of every length 0..=763 followed by a FINGERPRINT (typed and after into_owned()); distinct_nontrivial = fingerprinted messages"),
+        rule: format!("(each corrupted copy is parsed right after its uncorrupted original) 10 bodies (one of ~300 bytes, two whose values read as sealing-attribute headers or carry a relayed fingerprinted message; thorough: one more of ~1150 bytes) x 4 sealing combinations ending in FINGERPRINT x 4 classes, built by the real builder; on each: the builder's CRC value vs the reference relation; every single-byte substitution (255 per byte, includes all single-bit flips); every burst of width 2..=32 at every start bit with both end bits set (all interior patterns up to width {full_w}, 3 shapes above); ~20 plausible alternative CRC values (byte-swapped, complemented, without the XOR constant, rotated, over other ranges or length fields); large messages with the FINGERPRINT starting at 65516..=65544 and around 256 / 4096 / 32768 x 2 classes with a stated subset of corruptions (every bit of the header, of the last 12 bytes and of every 509th byte, every value of the length-field and CRC bytes); the builder value for typed text attributes of every length 0..=763 followed by a FINGERPRINT (typed and after into_owned()); distinct_nontrivial = fingerprinted messages"),
         bounds: json!({"messages": n_msgs, "burst_exhaustive_width": full_w, "burst_max_width": 32}),
         assumptions: vec!["mutants the reference decoder accepts (FINGERPRINT dissolved into other well-formed attributes) fall under C02, not C09".into()],
         ..Default::default()
